@@ -47,7 +47,7 @@ def verif_key():
         for sub in ("pyvc", "contracts", "spec", "lemmas"):
             for dp, dn, fn in os.walk(os.path.join(VERIF, sub)):
                 for f in sorted(fn):
-                    if f.endswith((".py", ".json")):
+                    if f.endswith((".py", ".json")) and f != "selftest.py":  # the self-test decides no unit
                         files.append(os.path.join(dp, f))
         for f in sorted(files):
             h.update(os.path.relpath(f, VERIF).encode())
